@@ -83,11 +83,15 @@ def imp_line(name, path):
     return "import %s%s" % (name + " " if name else "", json.dumps(REAL[path]))
 
 
-def render_patch(sc, code, stmts=False):
+def render_patch(sc, code, stmts=False, decl=False, exprmeta=False):
     metas = sorted({pi["name"] for pi in sc["pimps"] if pi["form"] == "meta"})
     out = ["@@"]
     if metas:
-        out.append("var %s identifier" % ", ".join(metas))
+        # an import name may also be declared as an expression metavariable; the statement defines "any name or
+        # none" for identifier metavariables only, so that spelling is used where the file names the import
+        fnames = {f["path"]: f["name"] for f in sc.get("fimps", [])}
+        named = all(fnames.get(pi["path"], "x") != "" for pi in sc["pimps"] if pi["form"] == "meta" and pi["side"] in ("ctx", "minus"))
+        out.append("var %s %s" % (", ".join(metas), "expression" if (exprmeta and named and "fimps" in sc) else "identifier"))
     out.append("@@")
     if sc["pkg"]:
         out.append(" package " + sc["pkg"])
@@ -97,6 +101,10 @@ def render_patch(sc, code, stmts=False):
         out.append(sign[pi["side"]] + imp_line(pi["name"] if pi["form"] != "unnamed" else "", pi["path"]))
     if sc["pimps"]:
         out.append("")
+    if decl:
+        # the code pattern is a complete top-level declaration (no elision anywhere)
+        out += ["-func oldDecl() {", "-\t" + code[0], "-}", "+func oldDecl() {", "+\t" + code[1], "+}"]
+        return "\n".join(out) + "\n"
     out.append("-" + code[0])
     out.append("+" + code[1])
     if stmts:
@@ -193,8 +201,12 @@ def run_cases(ctx, scs, name, allow_ref):
     reqs, meta = [], []
     for i, sc in enumerate(scs):
         code = choose_code(sc, ctx.rng, allow_ref)
-        patch = render_patch(sc, code, stmts=ctx.rng.random() < 0.3)
+        shape = ctx.rng.random()
+        decl = shape >= 0.8 and code[0] == "foo()"
+        patch = render_patch(sc, code, stmts=shape < 0.3, decl=decl, exprmeta=ctx.rng.random() < 0.3)
         src = render_file(sc, code[2], ctx.rng)
+        if decl:
+            src += "\nfunc oldDecl() {\n\t%s\n}\n" % code[0]
         cid = "%s-%d" % (name, i)
         meta.append(dict(id=cid, sc=sc, patch=patch, src=src, code=code))
         reqs.append(dict(id=cid, op="apply", patch=patch, name="subject.go", src=src))
